@@ -144,6 +144,35 @@ def _branch_table(f: FuncInfo, subject: str) -> Dict[str, ast.AST]:
         if isinstance(n, ast.If) and isinstance(n.test, ast.Compare) and src(n.test.left) == subject and len(n.test.ops) == 1 \
                 and isinstance(n.test.ops[0], ast.Eq) and isinstance(n.test.comparators[0], ast.Constant):
             out[n.test.comparators[0].value] = n
+    # … or a dispatch on a constant table of comparison functions:  cmp = TABLE.get(<subject>) ; return cmp(a, b)   with TABLE = {'>': operator.gt, …}
+    from ._tables import module_value
+    OPS = {'gt': ast.Gt, 'ge': ast.GtE, 'lt': ast.Lt, 'le': ast.LtE, 'eq': ast.Eq, 'ne': ast.NotEq}
+    for st in ast.walk(f.node):
+        if not (isinstance(st, ast.Assign) and len(st.targets) == 1 and isinstance(st.targets[0], ast.Name)):
+            continue
+        v = st.value
+        key = tbl = None
+        if isinstance(v, ast.Call) and isinstance(v.func, ast.Attribute) and v.func.attr == 'get' and isinstance(v.func.value, ast.Name) and v.args:
+            tbl, key = v.func.value.id, v.args[0]
+        elif isinstance(v, ast.Subscript) and isinstance(v.value, ast.Name):
+            tbl, key = v.value.id, v.slice
+        if tbl is None or src(key) != subject:
+            continue
+        tv = module_value(f.module, tbl)
+        if not isinstance(tv, ast.Dict):
+            continue
+        calls = [c for c in ast.walk(f.node) if isinstance(c, ast.Call) and isinstance(c.func, ast.Name) and c.func.id == st.targets[0].id and len(c.args) == 2]
+        rets = [r for r in ast.walk(f.node) if isinstance(r, ast.Return) and r.value is not None and any(r.value is c for c in calls)]
+        if not rets:
+            continue
+        a, b = rets[0].value.args
+        for k_, fn_ in zip(tv.keys, tv.values):
+            name = fn_.attr if isinstance(fn_, ast.Attribute) else fn_.id if isinstance(fn_, ast.Name) else None
+            if isinstance(k_, ast.Constant) and name in OPS and k_.value not in out:
+                cmp_ = ast.Compare(left=a, ops=[OPS[name]()], comparators=[b])
+                ret_ = ast.copy_location(ast.Return(value=ast.copy_location(cmp_, rets[0].value)), rets[0])
+                syn = ast.If(test=ast.Compare(left=key, ops=[ast.Eq()], comparators=[k_]), body=[ret_], orelse=[])
+                out[k_.value] = ast.fix_missing_locations(ast.copy_location(syn, rets[0]))
     return out
 
 
